@@ -88,6 +88,7 @@ func C03(c *core.Ctx) {
 	})
 	ledgerGen(c, "valued", c.Pick(1500, 60000))
 	c03stages(c, rng)
+	c03free(c, rng)
 }
 
 // c03stages validates the valuation stage on the real execution: the verif hook records each
